@@ -135,7 +135,10 @@ fn fails(p: &dyn Prop, req: &str, model: &str, imp: &str) -> (bool, bool) {
         return (false, false);
     }
     // (model differs, relation violated)
-    let differs = model != imp;
+    // a structured-program model that ran out of ITS fuel has no opinion (the relation against
+    // the tree interpreter / the implementation's own output is still evaluated)
+    let model_no_opinion = model.split(' ').any(|t| t == "M:fuel");
+    let differs = model != imp && !model_no_opinion;
     let rel = p.relation(req, model, imp).map(|ok| !ok).unwrap_or(false);
     (differs, rel)
 }
